@@ -148,6 +148,8 @@ class TT():
 
             if len(N) != d or len(R) != d+1 or R[0] != 1 or R[-1] != 1 or (len(M) != 0 and len(M) != len(N)):
                 raise InvalidArguments("Check the ranks and the mode size.")
+            if any(c.dtype != source[0].dtype for c in source):
+                raise InvalidArguments("The cores must have the same dtype.")
 
             self.cores = list(source)
             self.__R = R
@@ -306,6 +308,11 @@ class TT():
         if k >= len(self.__N) or k < 0:
             raise InvalidArguments(
                 "The index of the core mst match the dimensionality.")
+        # all cores of a TT object have one dtype: the new core is converted (a complex core does not fit into a real object)
+        if core.dtype != self.cores[0].dtype:
+            if core.is_complex() and not self.cores[0].is_complex():
+                raise InvalidArguments("A complex core cannot be set into a real TT object.")
+            core = core.to(dtype=self.cores[0].dtype)
         if self.__is_ttm:
             if len(core.shape) != 4 or core.shape[0] != self.__R[k] or core.shape[3] != self.__R[k+1]:
                 raise InvalidArguments(
